@@ -141,6 +141,8 @@ def run_loop(c):
             break
     if int(c["reps"]) > 1:
         cls.append("loop")
+    if not any(cell["a"] for cell in c["cells"]):
+        cls.append("nothing-allocated")
     return dict(nt=some_split and some_kept, cls=cls)
 
 
@@ -232,13 +234,21 @@ def loop_s(draw):
         [0.2, 0.5, 0.55, 0.7, 0.95, 1.0, 0.0, 0.3]))
     c["levels"] = draw(st.sampled_from([1, 1, 2, 3]))
     c["reps"] = draw(_i(1, 3))
+    if draw(_i(0, 11)) == 0:
+        # nothing is allocated yet (the allocation create_initial_allocation starts from): no cell is ever to be refined, at any threshold
+        for cell in c["cells"]:
+            cell["a"] = {}
+            cell["fixed"] = False
+        c["t"] = draw(st.sampled_from([1, 1.0, 0, 0.5, 1.5]))
+        if c["form"] == "text":
+            c["form"] = "tree"  # (a text without any 'key: value' is taken for a file name by the reader)
     return c
 
 
 def subchecks():
     return [
         Sub("loop", run_loop, strategy=loop_s(), n_quick=4000, n_thorough=100000, fuzz_thorough=2000,
-            required=("empty-map", "ratio==threshold", "stable", "loop", "almost-square-cell-split")),
+            required=("empty-map", "ratio==threshold", "stable", "loop", "almost-square-cell-split", "nothing-allocated")),
         Sub("uniform", run_uniform, strategy=A.alloc_case(), n_quick=2000, n_thorough=50000, fuzz_thorough=1000, required=("uniform-split",)),
         Sub("grid", run_grid, strategy=A.alloc_case(), n_quick=4000, n_thorough=100000, fuzz_thorough=2000,
             required=("x-boundaries!=y-boundaries", "more-y-than-x", "sliver-exception-used", "cut-applied")),
